@@ -39,6 +39,7 @@ type c02cfg struct {
 	pReset   int
 	pDup     int
 	tieD     time.Duration
+	pRunt    int
 }
 
 func c02Setup(rc *RunCtx) simrt.Config {
@@ -60,7 +61,10 @@ func c02Setup(rc *RunCtx) simrt.Config {
 		c.pReset = []int{0, 0, 10, 30}[r.Choose(4)]
 	}
 	if c.kind.pipelined() {
-		c.pDup = []int{0, 0, 20}[r.Choose(3)]
+		c.pDup = []int{0, 0, 20, 60}[r.Choose(4)]
+	}
+	if !c.kind.stream() {
+		c.pRunt = []int{0, 0, 25}[r.Choose(3)]
 	}
 	if r.Choose(6) == 0 {
 		// "tie" family: non-pipelined connections shared by several callers, every
@@ -91,6 +95,7 @@ func c02Setup(rc *RunCtx) simrt.Config {
 	rc.Cfg["p_close_after"] = c.pClose
 	rc.Cfg["p_reset_after"] = c.pReset
 	rc.Cfg["p_dup"] = c.pDup
+	rc.Cfg["p_runt"] = c.pRunt
 	rc.Cfg["chunk"] = rc.Net.ChunkMode
 	rc.priv = c
 	return cfg
@@ -120,6 +125,9 @@ func c02Main(rc *RunCtx) {
 			if simrt.Choose(2) == 0 {
 				a.DupDelay = time.Millisecond
 			}
+		}
+		if !sc.Stream && simrt.Choose(100) < c.pRunt {
+			a.Runt = true
 		}
 		return a
 	}
@@ -161,6 +169,19 @@ func c02Main(rc *RunCtx) {
 }
 
 func c02OnEvent(rc *RunCtx, w *W1, e simnet.Event) {
+	if e.Kind == "write" && e.Side == "s" {
+		// a reply reaches the client's receive buffer
+		if info, ok := e.Tag.(ReplyInfo); ok && info.Call >= 0 {
+			x := w.Calls[info.Call]
+			if x.Started && !x.Done && len(x.Txs) > 0 && !w.Closed && (x.Ctx == nil || x.Ctx.Err() == nil) {
+				last := x.Txs[len(x.Txs)-1]
+				if last.Conn == info.Conn && last.WireID == info.WireID && !rc.Net.Conns()[info.Conn].IsClosed() {
+					x.Delivered = append(x.Delivered, DeliveredReply{Nonce: info.Nonce, Conn: info.Conn, At: e.At, Step: e.Step})
+				}
+			}
+		}
+		return
+	}
 	if e.Kind != "consumed" || e.Side != "c" {
 		return
 	}
@@ -195,6 +216,25 @@ func c02OnEvent(rc *RunCtx, w *W1, e simnet.Event) {
 
 func c02CheckCall(rc *RunCtx, x *Call, final bool) {
 	if len(x.Timely) == 0 {
+		// Never consumed. If a reply sat in the connection's receive buffer at an
+		// earlier virtual instant than the one at which the call gave up (so the
+		// reader had every opportunity to read it) and before the deadline, the
+		// reply was received on the connection and then lost.
+		for _, d := range x.Delivered {
+			if x.Deadline > 0 && d.At >= x.Deadline {
+				continue
+			}
+			if x.Done && x.Err != nil && d.At < x.EndAt {
+				rc.Fail("delivered_reply_never_read", "call %d (%s): its reply (nonce %d) reached connection %d at t=%v and was never read; the call failed at t=%v with %q",
+					x.Idx, x.QName, d.Nonce, d.Conn, d.At, x.EndAt, x.Err)
+				return
+			}
+			if !x.Done && final {
+				rc.Fail("delivered_reply_call_never_returned", "call %d (%s): its reply (nonce %d) reached connection %d at t=%v, was never read, and the call never returned",
+					x.Idx, x.QName, d.Nonce, d.Conn, d.At)
+				return
+			}
+		}
 		return
 	}
 	if !x.Done {
